@@ -24,6 +24,8 @@ MUTANTS = [
     {'name': 'arabic run reversal skipped for runs of length 2', 'file': A, 'old': '            if seq.arabic:\n                seq.chars = seq.chars[::-1]', 'new': '            if seq.arabic and len(seq.chars) != 2:\n                seq.chars = seq.chars[::-1]'},
     {'name': 'trailing delimiters dropped by the order conversion', 'file': A,
      'old': '            if len(arabic_seq):\n                seq = Sequence(chars=arabic_seq, arabic=True)\n                sequences.append(seq)', 'new': '            pass'},
+    {'name': 'original-defect: fixed sentinel 1000 as the end of the line (lines with more than ~1000 frames raise)', 'file': 'pero_ocr/core/confidence_estimation.py',
+     'old': 'alignment = np.concatenate([aligned_letters, [2 * log_probs.shape[0]]])', 'new': 'alignment = np.concatenate([aligned_letters, [1000]])'},
 ]
 
 CHARS = ['a', 'b', 'c', ' ', 'ا', 'ب', '~']
@@ -262,6 +264,18 @@ def run(ctx):
     ctx.add_bounded('alto-pages', 'single lines: 20 transcriptions x 5 logits kinds x min confidence {0,.5}; two lines / two blocks: pairs of transcriptions x logits kinds; empty page / empty block',
                     res['evaluations'], res['nontrivial'], True, res['samples'], fails,
                     rule='every page of the grid; non-trivial = a line with more than one word', clause='ALTO export contract (see explanation)')
+    from props import _longline
+    import numpy as np_
+    from scipy import sparse as sparse_
+    from lxml import etree as ET_
+    from pero_ocr.core import layout as layout_
+    try:
+        n_, bad_ = _longline.check_alto(np_, sparse_, layout_, ET_)
+    except Exception as e:
+        n_, bad_ = 2, [('no-exception', 'long-line check raised %r' % (e,))]
+    ctx.add_bounded('long-lines', 'pages with one line of 1040 / 1300 logit frames (7 characters, the last four within the last 200 frames)', n_, n_, False, [{'frames': 1300}],
+                    [Failure(sig('rt', 'to_altoxml_string', c_), d_, function='PageLayout.to_altoxml_string', input={'long_line': True}, observed=d_, clause=c_) for c_, d_ in bad_[:1]],
+                    rule='fixed cases', clause='the export succeeds and keeps the words for lines of any length')
     alpha = ['ا', 'ب', '،', 'x', 'y', '7', ' ', '.', ':']
     L = 6 if thorough else 5
     strings = [''.join(t) for n in range(0, L + 1) for t in itertools.product(alpha, repeat=n)]
@@ -292,6 +306,13 @@ def replay(entry):
     from pero_ocr.core import layout
     from pero_ocr.core.arabic_helper import ArabicHelper
     inp = entry.get('input') or {}
+    if inp.get('long_line'):
+        from props import _longline
+        n_, bad = _longline.check_alto(np, sparse, layout, ET)
+        for b in bad:
+            print('REPLAY-FAIL', b)
+        print('replay: %d problem(s) on the long lines' % len(bad))
+        return 1 if bad else 0
     if 'blocks' in inp:
         bad = check_page(np, sparse, layout, ET, ArabicHelper(), tuple(tuple(b) for b in inp['blocks']), inp['logits'], inp['min_line_confidence'])
     elif 'text' in inp:
